@@ -13,6 +13,36 @@ def _assigned_names(nodes):
     return out
 
 
+def _live_at_head(nodes, name):
+    """False only if every iteration certainly overwrites `name` before reading it: its first occurrence (in source
+    order, loop test included) is a plain store in a top-level statement of the loop body."""
+    import ast
+    occ = []
+    for top in nodes:
+        if isinstance(top, (ast.While, ast.For)):
+            tests = [top.test] if isinstance(top, ast.While) else [top.iter]
+            for t in tests:
+                for x in ast.walk(t):
+                    if isinstance(x, ast.Name) and x.id == name:
+                        return True
+            stmts = top.body
+        else:
+            stmts = [top]
+        for st in stmts:
+            simple = isinstance(st, (ast.Assign, ast.AnnAssign)) and not isinstance(st, ast.AugAssign)
+            for x in ast.walk(st):
+                if isinstance(x, ast.Name) and x.id == name:
+                    is_store = isinstance(x.ctx, ast.Store) and simple and any(
+                        isinstance(t, ast.Name) and t.id == name for t in (st.targets if isinstance(st, ast.Assign) else [st.target]))
+                    occ.append(((x.lineno, x.col_offset), is_store, st))
+    if not occ:
+        return False
+    # an assignment evaluates its right-hand side first: a load of the name in the same statement makes it live
+    first_stmt = min(occ, key=lambda o: o[0])[2]
+    in_first = [o for o in occ if o[2] is first_stmt]
+    return not all(o[1] for o in in_first)
+
+
 def _fit(label, fn, *a):
     """Run a contract callback; a contract that refers to names the code no longer has does not fit the code any
     more - that is 'undecided', never a crash and never a pass."""
@@ -27,7 +57,7 @@ def _havoc_checked(label, havoc, I, frame, body, *a):
     """Frame condition of the contract: every local the loop body assigns and that is live at the loop head must be
     replaced by the havoc step (otherwise its pre-loop value would be used as if the loop never changed it)."""
     from .values import Unsupported
-    names = _assigned_names(body)
+    names = {k for k in _assigned_names(body) if _live_at_head(body, k)}
     before = {k: frame.locals[k] for k in names if k in frame.locals}
     _fit(label, havoc, I, frame, *a)
     kept = getattr(havoc, 'keeps', ())
@@ -55,8 +85,9 @@ class LoopSpec(object):
         import ast
         E = I.E
         E.notes.append('loop contract %s (invariant%s)' % (self.label, ' + variant' if self.variant else ''))
+        self.assigned = _assigned_names(node.body)       # for contracts that look for loop-carried locals by role
         E.check('%s.inv-entry' % self.label, _fit(self.label, self.invariant, I, frame), kind='loop')
-        _havoc_checked(self.label, self.havoc, I, frame, node.body)
+        _havoc_checked(self.label, self.havoc, I, frame, [node])
         E.assume(_fit(self.label, self.invariant, I, frame))
         is_while = isinstance(node, ast.While)
         if not is_while:
